@@ -90,7 +90,7 @@ def run_history(events, store_kind="local", keep_dir=False, hashseed="0", extra_
                    "options": options or {}}
         for a in payload["actions"]:
             if a.get("export") is True:
-                a["export"] = os.path.join(root, "graph.dot")
+                a["export"] = os.path.join(root, "graph.plain")
         wd = None
         if cwd:
             wd = os.path.join(root, cwd)
